@@ -563,6 +563,28 @@ pub fn check_c04(ix: &Ix<'_>, v: &mut Vec<Violation>) {
         };
         reqs.push(Req { idx: reqs.len(), kind, pid, answered: 0, delivered: s.delivered.is_some() });
     }
+    // Responses without an identifier (PINGRESP, AUTH) can only be matched by position. The protocol
+    // service sees control packets one at a time in arrival order, so the j-th PINGREQ corresponds to
+    // the j-th PINGREQ handler invocation; a request whose handler failed owes no response.
+    for (kind, brief) in [("PINGRESP", "PINGREQ"), ("AUTH", "AUTH")] {
+        let outcomes: Vec<Option<Outcome>> = ix
+            .gates
+            .iter()
+            .filter(|g| g.conn == conn && g.kind == GateKind::Proto)
+            .filter(|g| matches!(&g.desc, GateDesc::Proto { brief: b, .. } if b.starts_with(brief)))
+            .map(|g| g.exit.as_ref().map(|(_, o)| o.clone()))
+            .collect();
+        let mut j = 0usize;
+        for r in reqs.iter_mut().filter(|r| r.kind == kind) {
+            if let Some(Some(o)) = outcomes.get(j)
+                && *o != Outcome::Ok
+            {
+                // mark as not owing a response
+                r.answered = u32::MAX;
+            }
+            j += 1;
+        }
+    }
     let mut last_idx: Option<usize> = None;
     for e in ix.eps.iter().filter(|e| e.conn == conn) {
         let name = e.pkt.name();
